@@ -89,3 +89,20 @@ check('C17', 'proof',
       'dunder attribute access, unauthorised names or calls. Bounded: every builtin x plausible arguments through safe_eval and through real grammars under an audit hook.',
       'Trusted: pyvc, z3, ast.walk yields every node (assumed), CPython eval with empty __builtins__. Attribute traversal inside str.format is a stated limit (known finding).',
       'contract-based deductive verification (pyvc) + bounded audit-hook runs', '3/C17')
+check('C13', 'other',
+      'Bounded stand-in: for grammar models over the full expression language (from text, JSON, the ANTLR translator), every term kind in every context and token/pattern/constant '
+      'texts over an adversarial alphabet up to the stated length: compile(pretty(m)) accepts the same inputs with equal ASTs, keeps directives/keywords/params/decorators, pretty is a '
+      'fixpoint, railroads() completes with rails of equal display width. Assertion safety of railmath is planned as a proof (DESIGN 3/C13); string-building pretty printers are outside the pyvc subset.',
+      'Bounds per run in the evidence. Three syntax-level limitations are known findings (both quote kinds in one token, backquote inside a constant, an empty-constant fixpoint difference).',
+      'bounded round-trip checking of the real functions (labelled bounded)', '3/C13')
+check('C14', 'other',
+      'Bounded stand-in: ~1900 compiled models through four serialization routes (JSON, jsonimport, pickle, emitted python model source) with adversarial token/constant texts; '
+      'asjson on 111k object graphs with sharing and cycles against an independent reference conversion.',
+      'Bounds per run in the evidence. D18 (fromjson sniffs strings starting with f{ or \\e[ into Style) is a known finding.',
+      'bounded round-trip checking of the real functions (labelled bounded)', '3/C14')
+check('C20', 'other',
+      'Bounded stand-in: all texts up to length 3 over a 14-character alphabet (braces, colon, wide, combining, backslash, newline) x 515 styles x format specs x 9 colour modes (3.7M evaluations): '
+      'de-escaped output equals the plainly formatted text, visible length, no ESC with colour off, repr round trip. The proof of the escape assembly is planned (DESIGN 3/C20); '
+      'the regex stripping lemma is undecidable for z3 and cvc5 (measured) and stays bounded.',
+      'Bounds per run in the evidence.',
+      'bounded exhaustive contract checking of the real functions (labelled bounded)', '3/C20')
